@@ -29,6 +29,8 @@ DICTS = ["dict", "DictArithmetic"]
 TYPES = DICTS + BOOL_KINDS + SPIN_KINDS
 DEG2 = {"QUBO", "QUSO", "QUBOMatrix", "QUSOMatrix"}
 MATRIX = {"QUBOMatrix", "QUSOMatrix", "PUBOMatrix", "PUSOMatrix"}
+# signature of the (repaired) defect `D.normalize(0)` -> RuntimeError; normalize(0) on non-empty models stays in the
+# generated stream and in `all_types_cases` as regression input, and the oracle reports a relapse under this signature
 KNOWN_METHOD_ZERO = "C18:normalize-method-zero-value"
 
 
@@ -389,8 +391,8 @@ def oracle(c, can, R, G, log, rng):
         if nonempty and allzero and can["err"] == "ZeroDivisionError":
             return None
         if c["via"] == "method" and nonempty and Fraction(c["c"]) == 0 and can["exc"] == "RuntimeError":
-            return "normalize-method-zero-value", ("%s(%s).normalize(0) raises RuntimeError (dictionary changed size "
-                   "during iteration) and leaves the model partially modified; the function returns the all-zero (empty) model"
+            return "normalize-method-zero-value", ("regression of the repaired defect: %s(%s).normalize(0) raises RuntimeError (dictionary changed "
+                   "size during iteration) and leaves the model partially modified; the function returns the all-zero (empty) model"
                    % (c["ty"], dict((tuple(k), v) for k, v in c["g"])))
         return op, "unexpected %s" % can["exc"]
     if op in ("subvalue", "subgraph"):
@@ -558,7 +560,7 @@ def search(ctx):
     for c in extra:
         can, R, G, log, _ = run_impl(c)
         bad = oracle(c, can, R, G, log, rng)
-        if bad and bad[0] != "normalize-method-zero-value":
+        if bad:
             ctx.violation("C18:" + bad[0], c, bad[1])
 
 
